@@ -2,9 +2,13 @@
 
 Deciding monitor: metamorphic contract on canonicalize_molecule (shadow relabellings through the original function,
 labelled-graph equality). Plus a trace checker over canonicalize results of graph- and V3000-text-route variants."""
+import json
+import os
 import random
 
 from .. import bridge, monitors
+from ..core import h
+from ..oracles import iso
 from ..gen import mols as G
 from ..oracles.ctab import Mol
 from . import common, molprops
@@ -20,7 +24,7 @@ SPEC = {
              "maps and edge sets are compared; trace variants additionally enter through V3000 text. distinct_nontrivial = distinct molecules "
              "(exact canonical form n<=7, else refinement fingerprint) with >=3 atoms and >=1 bond"),
     "assumptions": ["relabelling applied by the harness: same molecule by construction", "molecules <= 120 atoms get shadow calls; larger ones are counted as skipped"],
-    "monitors_required": ["c04_shadow_compare", "c04_trace_compare"],
+    "monitors_required": ["c04_shadow_compare", "c04_trace_compare", "c04_exhaustive_class_compare"],
     "required_obs": {"quick": ["cov_multi_component", "cov_isotope_and_radical_on_one_atom", "cov_symmetric_partial_orbit", "cov_text_route_variant", "cov_corpus"]},
     "watchdog_s": {"quick": 900, "thorough": 3600},
 }
@@ -72,6 +76,9 @@ def _run_case(ctx, case):
     if g0.number_of_nodes() >= 3 and g0.number_of_edges() >= 1:
         ctx.nontrivial(common.graph_key(g0))
     molprops.coverage(ctx, case, g0)
+    if case.get("cls") == "M1" and getattr(ctx, "events", None) is not None:
+        c_, e_ = bridge.colors_edges(g0)
+        ctx.events.write(json.dumps({"k": h(iso.canon_small(c_, e_)), "g": h(results[0][1]), "name": case.get("name")}) + "\n")
     ctx.sample({"class": case.get("cls"), "name": case.get("name"), "atoms": g0.number_of_nodes(),
                 "canonical_nodes": [[v, list(map(str, t))] for v, t in results[0][1][0]][:6]})
 
@@ -79,10 +86,31 @@ def _run_case(ctx, case):
 def run(ctx):
     plan = PLAN[ctx.tier]
     monitors.install(ctx, {"C04"}, k_relabel=plan["k"], seed=f"{ctx.seed}/{ctx.shard}")
+    ctx.events = open(ctx.events_path, "w")
     for case in molprops.cases(ctx, plan):
         run_case(ctx, case)
 
 
+def post_merge(res, tier, seed, repo, work):
+    """Exhaustive small sub-space: all labelled versions of one isomorphism class (independent canonical form) must canonicalize to ONE labelled graph."""
+    by_class, n = {}, 0
+    for f in sorted(os.listdir(work)):
+        if f.endswith(".events"):
+            for line in open(os.path.join(work, f)):
+                e = json.loads(line)
+                n += 1
+                by_class.setdefault(e["k"], {}).setdefault(e["g"], e["name"])
+    violations = []
+    for k, graphs in by_class.items():
+        if len(graphs) > 1:
+            violations.append({"property": "C04", "monitor": "trace:one-labelled-graph-per-isomorphism-class(exhaustive)", "seed": seed, "tier": tier, "shard": -1,
+                               "witness": {"what": "labelled versions of one small molecule canonicalize to different labelled graphs", "examples": list(graphs.values())[:4]}, "case": None})
+    return {"obs": {"exhaustive_events": n, "exhaustive_isomorphism_classes": len(by_class)}, "violations": violations[:10],
+            "monitor_evals": {"c04_exhaustive_class_compare": len(by_class)}}
+
+
 def replay(ctx, w):
+    if w.get("case") is None:
+        return
     monitors.install(ctx, {"C04"}, k_relabel=8, seed="replay")
     run_case(ctx, w["case"])
